@@ -44,6 +44,7 @@ type chainAlt struct {
 	Guards []Atom // dominating guards of the return (provenance atoms)
 	Ret    *ssa.Return
 	Fn     *ssa.Function
+	Via    []*ssa.BasicBlock // blocks of the forwarding returns in the callers (outermost last)
 }
 
 func (a chainAlt) Names() string {
@@ -59,6 +60,8 @@ type chainEval struct {
 	pv       *Prov
 	Problems []string
 	helpers  map[*ssa.Function]string // "appendNonEmpty" | "reverse" | ""
+	bind     map[*ssa.Parameter][]sliceAlt
+	depth    int
 }
 
 func newChainEval(p *Program) *chainEval {
@@ -241,17 +244,47 @@ func (ce *chainEval) evalSlice(v ssa.Value, depth int) ([][]chainElem, bool) {
 	return out, true
 }
 
-// evalSliceG is evalSlice with the edge guards of the phi edges taken.
+// evalSliceG is evalSlice with guards: the edge guards of the phi edges taken and the
+// guards of the returns of slice-building helpers that were followed.
 func (ce *chainEval) evalSliceG(v ssa.Value, depth int) ([]sliceAlt, bool) {
-	if ph, ok := v.(*ssa.Phi); ok && depth < 12 {
+	if depth > 14 {
+		return nil, false
+	}
+	cross := func(base, add []sliceAlt, combine func(b, a []chainElem) []chainElem) []sliceAlt {
 		var out []sliceAlt
-		for i, e := range ph.Edges {
+		for _, b := range base {
+			for _, a := range add {
+				out = append(out, sliceAlt{combine(b.Elems, a.Elems), append(append([]Atom{}, b.Guards...), a.Guards...)})
+			}
+		}
+		return out
+	}
+	switch x := v.(type) {
+	case *ssa.Const:
+		if x.Value == nil {
+			return []sliceAlt{{}}, true
+		}
+	case *ssa.Parameter:
+		if alts, ok := ce.bind[x]; ok {
+			return alts, true
+		}
+	case *ssa.Slice:
+		if elems, ok := variadicArgs(x); ok {
+			var out []chainElem
+			for _, e := range elems {
+				out = append(out, ce.elemOf(e))
+			}
+			return []sliceAlt{{Elems: out}}, true
+		}
+	case *ssa.Phi:
+		var out []sliceAlt
+		for i, e := range x.Edges {
 			alts, ok := ce.evalSliceG(e, depth+1)
 			if !ok {
 				return nil, false
 			}
 			var eg []Atom
-			for _, g := range EdgeGuards(ph.Block().Preds[i], ph.Block()) {
+			for _, g := range EdgeGuards(x.Block().Preds[i], x.Block()) {
 				eg = append(eg, normAtom(ce.pv.Of(g.Cond), g.Pol))
 			}
 			for _, a := range alts {
@@ -259,11 +292,48 @@ func (ce *chainEval) evalSliceG(v ssa.Value, depth int) ([]sliceAlt, bool) {
 			}
 		}
 		return out, true
-	}
-	if c, ok := v.(*ssa.Call); ok && depth < 12 {
-		// helpers and append: propagate guards of the base operand
-		if f := staticCallee(c.Common()); f != nil && ce.helperKind(f) == "reverse" {
-			base, ok := ce.evalSliceG(c.Common().Args[0], depth+1)
+	case *ssa.Call:
+		c := x.Common()
+		if bi, ok := c.Value.(*ssa.Builtin); ok && bi.Name() == "append" {
+			base, ok := ce.evalSliceG(c.Args[0], depth+1)
+			if !ok {
+				return nil, false
+			}
+			add, ok := ce.evalSliceG(c.Args[1], depth+1)
+			if !ok {
+				return nil, false
+			}
+			return cross(base, add, func(b, a []chainElem) []chainElem { return append(append([]chainElem{}, b...), a...) }), true
+		}
+		f := staticCallee(c)
+		if f == nil {
+			return nil, false
+		}
+		switch ce.helperKind(f) {
+		case "appendNonEmpty":
+			base, ok := ce.evalSliceG(c.Args[0], depth+1)
+			if !ok {
+				return nil, false
+			}
+			add, ok := ce.evalSliceG(c.Args[1], depth+1)
+			if !ok {
+				return nil, false
+			}
+			return cross(base, add, func(b, a []chainElem) []chainElem {
+				seq := append([]chainElem{}, b...)
+				for _, e := range a {
+					if e.Sym == nil && e.Const == "" {
+						continue // empty constant: dropped
+					}
+					if e.Sym != nil {
+						e.Optional = true
+					}
+					seq = append(seq, e)
+				}
+				return seq
+			}), true
+		case "reverse":
+			base, ok := ce.evalSliceG(c.Args[0], depth+1)
 			if !ok {
 				return nil, false
 			}
@@ -277,110 +347,77 @@ func (ce *chainEval) evalSliceG(v ssa.Value, depth int) ([]sliceAlt, bool) {
 			}
 			return out, true
 		}
-	}
-	plain, ok := ce.evalSlicePlain(v, depth)
-	if !ok {
-		return nil, false
-	}
-	var out []sliceAlt
-	for _, e := range plain {
-		out = append(out, sliceAlt{Elems: e})
-	}
-	return out, true
-}
-
-func (ce *chainEval) evalSlicePlain(v ssa.Value, depth int) ([][]chainElem, bool) {
-	if depth > 12 {
-		return nil, false
-	}
-	switch x := v.(type) {
-	case *ssa.Const:
-		if x.Value == nil {
-			return [][]chainElem{{}}, true
-		}
-	case *ssa.Slice:
-		if elems, ok := variadicArgs(x); ok {
-			var out []chainElem
-			for _, e := range elems {
-				out = append(out, ce.elemOf(e))
-			}
-			return [][]chainElem{out}, true
-		}
-	case *ssa.Phi:
-		var out [][]chainElem
-		for _, e := range x.Edges {
-			alts, ok := ce.evalSlice(e, depth+1)
-			if !ok {
-				return nil, false
-			}
-			out = append(out, alts...)
-		}
-		return out, true
-	case *ssa.Call:
-		c := x.Common()
-		if bi, ok := c.Value.(*ssa.Builtin); ok && bi.Name() == "append" {
-			base, ok := ce.evalSlice(c.Args[0], depth+1)
-			if !ok {
-				return nil, false
-			}
-			add, ok := ce.evalSlice(c.Args[1], depth+1)
-			if !ok {
-				return nil, false
-			}
-			var out [][]chainElem
-			for _, b := range base {
-				for _, a := range add {
-					out = append(out, append(append([]chainElem{}, b...), a...))
-				}
-			}
-			return out, true
-		}
-		if f := staticCallee(c); f != nil {
-			switch ce.helperKind(f) {
-			case "appendNonEmpty":
-				base, ok := ce.evalSlice(c.Args[0], depth+1)
+		// a helper of the package that builds and returns a chain fragment ([]string, no error)
+		if f.Pkg != nil && f.Blocks != nil && f.Signature.Results().Len() == 1 && isStringSlice(f.Signature.Results().At(0).Type()) && ce.depth < 4 {
+			saved := ce.bindArgs(f, c.Args, depth)
+			ce.depth++
+			var out []sliceAlt
+			okAll := true
+			for _, ret := range Returns(f) {
+				sub, ok := ce.evalSliceG(ret.Results[0], depth+1)
 				if !ok {
-					return nil, false
+					okAll = false
+					break
 				}
-				add, ok := ce.evalSlice(c.Args[1], depth+1)
-				if !ok {
-					return nil, false
+				g := ce.pv.Atoms(ret.Block())
+				for _, a := range sub {
+					out = append(out, sliceAlt{a.Elems, append(append([]Atom{}, g...), a.Guards...)})
 				}
-				var out [][]chainElem
-				for _, b := range base {
-					for _, a := range add {
-						seq := append([]chainElem{}, b...)
-						for _, e := range a {
-							if e.Sym == nil && e.Const == "" {
-								continue // empty constant: dropped
-							}
-							if e.Sym != nil {
-								e.Optional = true
-							}
-							seq = append(seq, e)
-						}
-						out = append(out, seq)
-					}
-				}
-				return out, true
-			case "reverse":
-				base, ok := ce.evalSlice(c.Args[0], depth+1)
-				if !ok {
-					return nil, false
-				}
-				var out [][]chainElem
-				for _, b := range base {
-					rv := make([]chainElem, len(b))
-					for i := range b {
-						rv[len(b)-1-i] = b[i]
-					}
-					out = append(out, rv)
-				}
+			}
+			ce.depth--
+			ce.restore(saved)
+			if okAll {
 				return out, true
 			}
 		}
 	}
 	return nil, false
+}
+
+func isStringSlice(t types.Type) bool {
+	sl, ok := t.Underlying().(*types.Slice)
+	if !ok {
+		return false
+	}
+	b, ok := sl.Elem().Underlying().(*types.Basic)
+	return ok && b.Kind() == types.String
+}
+
+// bindArgs binds the []string parameters of f to the alternatives of the arguments (evaluated in the
+// caller) and returns the previous bindings.
+func (ce *chainEval) bindArgs(f *ssa.Function, args []ssa.Value, depth int) map[*ssa.Parameter][]sliceAlt {
+	saved := map[*ssa.Parameter][]sliceAlt{}
+	if ce.bind == nil {
+		ce.bind = map[*ssa.Parameter][]sliceAlt{}
+	}
+	for i, prm := range f.Params {
+		if i >= len(args) || !isStringSlice(prm.Type()) {
+			continue
+		}
+		if alts, ok := ce.evalSliceG(args[i], depth+1); ok {
+			if old, had := ce.bind[prm]; had {
+				saved[prm] = old
+			} else {
+				saved[prm] = nil
+			}
+			ce.bind[prm] = alts
+		}
+	}
+	return saved
+}
+
+func (ce *chainEval) restore(saved map[*ssa.Parameter][]sliceAlt) {
+	for prm, old := range saved {
+		if old == nil {
+			delete(ce.bind, prm)
+		} else {
+			ce.bind[prm] = old
+		}
+	}
+}
+
+func (ce *chainEval) evalSlicePlain(v ssa.Value, depth int) ([][]chainElem, bool) {
+	return ce.evalSlice(v, depth)
 }
 
 func (ce *chainEval) elemOf(v ssa.Value) chainElem {
@@ -417,7 +454,11 @@ func (ce *chainEval) FuncChains(fn *ssa.Function, depth int) []chainAlt {
 			if ok0 && ok1 && ex0.Tuple == ex1.Tuple {
 				if call, ok := ex0.Tuple.(*ssa.Call); ok {
 					if f := staticCallee(call.Common()); f != nil && f.Pkg == fn.Pkg {
-						for _, sub := range ce.FuncChains(f, depth+1) {
+						saved := ce.bindArgs(f, call.Common().Args, 0)
+						subs := ce.FuncChains(f, depth+1)
+						ce.restore(saved)
+						for _, sub := range subs {
+							sub.Via = append(append([]*ssa.BasicBlock{}, sub.Via...), ret.Block())
 							sub.Guards = append(append([]Atom{}, guards...), sub.Guards...)
 							out = append(out, sub)
 						}
